@@ -9,4 +9,4 @@ Definition f1_fun_code := GenF1.fun_code.
 Definition f1_init_ne := GenF1.init_ne.
 Extraction "model.ml" Z.add Z.mul Z.opp Z.div_eucl Z.of_nat Z.to_nat Z.compare
   eval_program_cfg eval_program prim_ident all_prims cc GenF0.gen GenF0.f0 f1_gen f1_ok f1_top f1_fun_code f1_init_ne
-  init_istateF add_scopeF add_func_scopeF pop_scopesF create_closureF pseudoF set_curF impl_lookupF.
+  init_istateF add_scopeF add_func_scopeF pop_scopesF create_closureF pseudoF set_curF impl_lookupF covb call_premise_b.
